@@ -4,7 +4,7 @@
 export GOFLAGS=-mod=mod GOPROXY=off GOSUMDB=off GOTOOLCHAIN=local
 OUT=$(mktemp -d /tmp/seedoutXXXX)
 cp /verif/known_findings.json $OUT/
-for S in /verif/seeded/*/; do
+for S in /verif/seeded/${SEEDGLOB:-*}/; do
   NAME=$(basename $S)
   PROP=$(python3 -c "import json;print(json.load(open('$S/meta.json'))['property'])")
   WT=$(mktemp -d /tmp/seedwtXXXX); rmdir $WT
